@@ -316,8 +316,20 @@ class Theory:
         
         """
         if seq.rule == "":
-            # Empty line in the proof
+            # Empty line in the proof. It justifies nothing, so it must not
+            # carry a statement that later items (or the caller) could use.
+            if seq.th is not None:
+                raise CheckProofException("empty line %s cannot have a statement" % seq.id)
             return None
+
+        # The identifier of an item must agree with its position in the proof.
+        # Otherwise can_depend_on (on identifiers) and find_item (on positions)
+        # disagree, and a step could cite an item that is not yet checked.
+        try:
+            if prf.find_item(seq.id) is not seq:
+                raise CheckProofException("id %s does not agree with position" % seq.id)
+        except ProofStateException:
+            raise CheckProofException("id %s does not agree with position" % seq.id)
 
         if seq.rule == "sorry":
             # Gap in the proof
@@ -495,7 +507,10 @@ class Theory:
                 self.extend_constant(ext)
             elif ext.is_theorem():
                 if ext.prf:
-                    self.check_proof(ext.prf)
+                    res_th = self.check_proof(ext.prf, no_gaps=True)
+                    if not res_th.can_prove(ext.th):
+                        raise CheckProofException(
+                            "proof of %s does not match statement\n%s\n vs.\n%s" % (ext.name, ext.th, res_th))
                 else:  # No proof - add as axiom
                     ext_report.add_axiom(ext.name, ext.th)
 
